@@ -147,11 +147,30 @@ def gen_case(rng, tier):
     else:
         no, ni = rng.choice([(3, 1), (1, 3), (3, 2), (2, 3), (3, 3)])
     t = ["K", str(no), str(ni)]
+    if no + ni > 2 and rng.random() < 0.4:
+        # a loop with two sibling chains of loops below it (the loops fork.. appear twice)
+        t += ["fork", str(rng.randint(1, no + ni - 1))]
     for _ in range(3):
         t += ["env", str(rng.randint(0, 9)), str(rng.randint(0, 9)), str(rng.randint(0, 6)), str(rng.randint(1, 3))]
     for k in range(no + ni):
         t += gen_loop(rng, tier, small=(no + ni > 2))
     return " ".join(t)
+
+
+def tree_shapes():
+    """every nest shape (1-3 @outer x 1-3 @inner) x every fork position: a loop of either kind with two sibling
+    chains below it, at every depth; the loops have pairwise different iteration counts so that a loop reading
+    another loop's launch dimension changes the visited tuples"""
+    cases = []
+    bounds = [["2"], ["M"], ["3"], ["N", "-", "1"], ["Q", "+", "1"], ["2"]]
+    for no in (1, 2, 3):
+        for ni in (1, 2, 3):
+            for fork in range(1, no + ni):
+                t = ["K", str(no), str(ni), "fork", str(fork), "env", "5", "3", "0", "1", "env", "2", "4", "1", "2"]
+                for k in range(no + ni):
+                    t += ["loop", "lt", "L", "inc", "i", "0", "b"] + bounds[(k + no) % len(bounds)]
+                cases.append(" ".join(t))
+    return cases
 
 
 def exhaustive_shapes():
@@ -223,6 +242,7 @@ def simplifications(case):
     except ValueError:
         return []
     rest = t[3:]
+    fork = rest[:2] if rest[:1] == ["fork"] else []
     if "loop" not in rest:
         return []
     k = rest.index("loop")
@@ -247,12 +267,15 @@ def simplifications(case):
     out = []
 
     def build(no_, ni_, envs_, loops_):
-        s = ["K", str(no_), str(ni_)]
+        s = ["K", str(no_), str(ni_)] + (fork if (no_, ni_) == (no, ni) else [])
         for e in envs_:
             s += ["env"] + e
         for l in loops_:
             s += ["loop"] + l
         return " ".join(s)
+    # no fork
+    if fork:
+        out.append(" ".join(["K", str(no), str(ni)] + rest[2:]))
     # one env
     if len(envs) > 1:
         for e in envs:
@@ -346,9 +369,10 @@ def run(run, tier, seed, replay_case=None):
     corpus = C.load_corpus(PROP)
     ex = exhaustive_shapes()
     if tier == "quick":
-        cases = list(corpus) + random.Random(seed).sample(ex, 80) + [gen_case(rng, tier) for _ in range(260)]
+        cases = (list(corpus) + random.Random(seed).sample(ex, 70) + tree_shapes()
+                 + [gen_case(rng, tier) for _ in range(230)])
     else:
-        cases = list(corpus) + ex + [gen_case(rng, tier) for _ in range(2000)]
+        cases = list(corpus) + ex + tree_shapes() + [gen_case(rng, tier) for _ in range(2000)]
     if replay_case is not None:
         cases = [replay_case]
     cases, I, R, S = run_generic(run, PROP, cases, cmd, model, pr, simplifications,
@@ -363,7 +387,10 @@ def run(run, tier, seed, replay_case=None):
                    "every operator class (* / % + - << >> relational equality & ^ | && || ?: unary - ! ~), 3 run-time "
                    "environments each (non-empty, exactly empty, over-empty loops arise), ~4% headers whose update moves "
                    "away from the bound, ~5% all-literal headers, plus an enumerated batch of the 24 accepted header shapes x 5 "
-                   "bound forms and the 24 rejected shapes; non-trivial = an operand is an operator expression and at least one environment visits at least "
+                   "bound forms and the 24 rejected shapes; ~40% of the nests with more than two loops and an enumerated batch of all "
+                   "27 (nest shape x fork position) combinations have a loop of either kind with two sibling chains of "
+                   "loops below it (getOklLoopIndex on loop trees; each loop's thread-index component must be the launch "
+                   "dimension of its depth); non-trivial = an operand is an operator expression and at least one environment visits at least "
                    "one iteration; distinct = distinct case text")
     k = len(cases)
     cov["samples"] = [dict(case=cases[i], impl=I[i], model=R[i], spec=S[i]) for i in sorted(set([0, k // 2, k - 1]))]
@@ -372,6 +399,7 @@ def run(run, tier, seed, replay_case=None):
         for m in re.finditer(r"loop (\w+) (\w) (\w+)", c):
             shapes.add(m.groups())
     cov["header_shapes_seen"] = len(shapes)
+    cov["forked_loop_trees"] = sum(1 for c in cases if " fork " in c)
     cov["parses_per_case"] = 7
     cov["emitted_sources_per_case"] = 12
     cov["rejected_by_translator"] = sum(1 for x in I if x == "R ERR")
